@@ -67,6 +67,7 @@ func c11World(t *testing.T, r *simcore.Run) any {
 		}
 	}
 	gaps := tp.Bool(1, 3, "daygaps")
+	issuedAt := map[string]time.Time{} // cookie -> when the server handed it out
 	replays := tp.Bool(1, 2, "replays")
 	restarts := tp.Bool(1, 3, "restarts")
 	// the server process is restarted now and then: its keys are gone, every cookie the client
@@ -105,6 +106,16 @@ func c11World(t *testing.T, r *simcore.Run) any {
 			// the client ahead of the genuine one (over SCION the router relays the bytes
 			// unchanged, so a recorded reply can be replayed on the last hop as it is)
 			defer func() { pastResponses = append(pastResponses, append([]byte(nil), d.Payload...)) }()
+			if replays && lastReq != nil && tp.Bool(1, 8, "reflect?") {
+				// the client's own request comes back to it (reflected on the path, the reply's
+				// addressing) ahead of the genuine reply: its clear cookie and placeholder fields
+				// are nobody's to keep
+				if wrapped := tr.rewrap(d, append([]byte(nil), tr.ntp(lastReq.d)...)); wrapped != nil {
+					refl := net.NewDatagram(d.Src, d.Dst, wrapped, "request reflected")
+					r.Fault("request-reflected-to-the-client")
+					return []simnet.Route{{D: refl, Delay: 40 * time.Microsecond}, {D: d, Delay: 120 * time.Microsecond}}, true
+				}
+			}
 			if replays && len(pastResponses) > 0 && tp.Bool(1, 3, "replay?") {
 				old := net.NewDatagram(d.Src, d.Dst, pastResponses[tp.Intn(len(pastResponses), "which")], "replayed response")
 				r.Fault("stale-response-replayed")
@@ -195,6 +206,7 @@ func c11World(t *testing.T, r *simcore.Run) any {
 					return
 				}
 				batch[string(f.body)] = true
+				issuedAt[string(f.body)] = time.Now()
 				sc, _, err := openCookieWith(tr.provider(), f.body)
 				if err != nil {
 					r.Fail("C11", "reply/cookie-does-not-open", "a fresh cookie does not open under a currently valid server key: %v", err)
@@ -233,7 +245,19 @@ func c11World(t *testing.T, r *simcore.Run) any {
 				gap = time.Duration(tp.Range(int64(time.Hour), int64(5*24*time.Hour), "days"))
 				r.Fault("idle-gap-days")
 			}
-			if r.Sleep(fmt.Sprintf("gap:%d", i), tr.clientNode(), gap).Killed {
+			if gap >= 24*time.Hour && tp.Bool(2, 3, "other-traffic") {
+				// the client is idle; other clients are not: their requests make the server renew
+				// its key every day
+				for left, k := gap, 0; left > 0; k++ {
+					step := min(left, 12*time.Hour)
+					if r.Sleep(fmt.Sprintf("gap:%d.%d", i, k), tr.clientNode(), step).Killed {
+						return
+					}
+					left -= step
+					tr.provider().Current()
+				}
+				r.Probe("server-busy-while-client-idle")
+			} else if r.Sleep(fmt.Sprintf("gap:%d", i), tr.clientNode(), gap).Killed {
 				return
 			}
 			cur = i
@@ -266,6 +290,7 @@ func c11World(t *testing.T, r *simcore.Run) any {
 				r.Probe("re-keyed")
 				// the cookies of a key exchange are sealed under the provider's current key as well
 				for _, ck := range tr.fetcher().VerifData().Cookie {
+					issuedAt[string(ck)] = time.Now()
 					if d, ok := cookieUsableFor(tr.provider(), ck); ok && d < 48*time.Hour-time.Hour {
 						r.Fail("C11", "key-exchange/cookie-lifetime", "a cookie issued by the key exchange just now can be opened for only %v more", d)
 						return
@@ -322,6 +347,13 @@ func c11World(t *testing.T, r *simcore.Run) any {
 				if !dropReq[i] && !dropResp[i] && lastReq != nil && lastReply == nil && !gaps {
 					r.Fail("C11", "server/no-reply", "%s: an authenticated request that was not lost got no reply", line)
 					return
+				}
+				if !dropReq[i] && !dropResp[i] && lastReq != nil && lastReply == nil && gaps {
+					// after idle days: a cookie is good for two days from the moment it was handed out
+					if t0, known := issuedAt[string(lastReq.cookie)]; known && time.Since(t0) < 48*time.Hour-time.Minute {
+						r.Fail("C11", "server/no-reply", "%s: the request's cookie was handed out %v ago (less than two days), the request was not lost, and there is no reply", line, time.Since(t0))
+						return
+					}
 				}
 				if !dropReq[i] && !dropResp[i] && !gaps && lastReq != nil {
 					r.Fail("C11", "client/rejected-good-reply", "%s: nothing was lost, yet the exchange failed", line)
